@@ -381,7 +381,12 @@ Section Stmts.
     if cfg_short cfg then
       match orelse with
       | [] => BoolOp And [test; wrap cfg body]
-      | _ => BoolOp Or [BoolOp And [test; BoolOp Or [wrap cfg body; cint 1]]; wrap cfg orelse]
+      | _ =>
+          let semi := BoolOp And [test; BoolOp Or [wrap cfg body; cint 1]] in
+          match wrap cfg orelse with
+          | BoolOp Or vs => BoolOp Or (semi :: vs)           (* a long elif chain stays flat *)
+          | oe => BoolOp Or [semi; oe]
+          end
       end
     else IfExp test (wrap cfg body) (wrap cfg orelse).
 
